@@ -71,6 +71,8 @@ func generatePerSchema(data *Data) error {
 		return err
 	}
 
+	addDirectives(data, &builds)
+
 	for filename, build := range builds {
 		if filename == "" {
 			continue
@@ -158,6 +160,24 @@ func addObjects(data *Data, builds *map[string]*Data) error {
 		(*builds)[filename].Objects = append((*builds)[filename].Objects, o)
 	}
 	return nil
+}
+
+// addDirectives makes sure that a schema file which declares nothing but directives still gets
+// its generated file: the middleware of QUERY, MUTATION, SUBSCRIPTION and FIELD directives is
+// rendered into the file of the schema source that declares them.
+func addDirectives(data *Data, builds *map[string]*Data) {
+	for _, d := range data.AllDirectives {
+		if d.Position == nil || d.Position.Src == nil || d.Position.Src.BuiltIn {
+			continue
+		}
+		if !d.IsLocation(ast.LocationQuery, ast.LocationMutation, ast.LocationSubscription, ast.LocationField) {
+			continue
+		}
+		filename := filename(d.Position, data.Config)
+		if (*builds)[filename] == nil {
+			addBuild(filename, d.Position, data, builds)
+		}
+	}
 }
 
 func addInputs(data *Data, builds *map[string]*Data) error {
